@@ -1,10 +1,111 @@
 import PewDriver.Util
+import PewModel.Srr
 open Lean
 namespace PewDriver.C09
-open PewDriver
+open PewDriver Pew Pew.Srr
 
-def handle (op : String) (_req : Json) : R Json := do
+def parsePairs (j : Json) (k : String) : R (List (Nat × Nat)) :=
+  getList (fun p => do
+      match (← asList asNat p) with
+      | [o, d] => pure (o, d)
+      | _ => throw "offset pair expected") j k
+
+/-- the constructor arguments of `SRRConfig` (exact values of the floats) -/
+def parseSrrCfg (j : Json) : R SrrConfig := do
+  pure (SrrConfig.make (← getRat j "spotsize") (← getRat j "speed") (← getRat j "scantime")
+    (← getRat j "warmup") (← parsePairs j "pairs"))
+
+/-- a layer: `rows × cols` pixels, each a tuple of element tokens -/
+def parseLayer (j : Json) : R (Arr2 (List Int)) := do
+  let rows ← getNat j "rows"
+  let cols ← getNat j "cols"
+  let data ← getList (asList asInt) j "data"
+  if data.length ≠ rows * cols then throw "layer data/shape mismatch"
+  let arr := data.toArray
+  pure { rows := rows, cols := cols, get := fun r c => (arr[r * cols + c]?).getD [] }
+
+def jArr3 (a : Arr3 (List Int)) : Json :=
+  jObj [("shape", jList jNat [a.rows, a.cols, a.depth]),
+        ("data", jList (fun r => jList (fun c => jList (fun i => jList jInt (a.get r c i)) (List.range a.depth))
+                  (List.range a.cols)) (List.range a.rows))]
+
+def jArr2 {α} (f : α → Json) (a : Arr2 α) : Json :=
+  jObj [("shape", jList jNat [a.rows, a.cols]),
+        ("data", jList (fun r => jList (fun c => f (a.get r c)) (List.range a.cols)) (List.range a.rows))]
+
+def project (e : Nat) (l : Arr2 (List Int)) : Arr2 Rat :=
+  { rows := l.rows, cols := l.cols, get := fun r c => (((l.get r c).getD e 0 : Int) : Rat) }
+
+def jCfg (c : SrrConfig) : Json :=
+  jObj [("spotsize", jRat c.spotsize), ("speed", jRat c.speed), ("scantime", jRat c.scantime),
+        ("warmup_samples", jInt c.warmup), ("warmup_seconds", jRat c.warmupSeconds),
+        ("size", jNat c.size), ("offs", jList jNat c.offs),
+        ("subpixel_offsets", jList (fun (p : Nat × Nat) => jList jNat [p.1, p.2]) c.subpixelOffsets)]
+
+/-- distance of the warm-up quotient from the nearest rounding tie -/
+def warmupTieMargin (seconds scantime : Rat) : Rat :=
+  let x := seconds / scantime
+  let r := x - (x.floor : Rat)
+  if r < 1 / 2 then 1 / 2 - r else r - 1 / 2
+
+def handle (op : String) (req : Json) : R Json := do
   match op with
+  | "c09.srr" =>
+    let c ← fld req "cfg" >>= parseSrrCfg
+    let m ← getRat req "mag"
+    let nel ← getNat req "nel"
+    let layers ← getList parseLayer req "layers"
+    let z : List Int := List.replicate nel 0
+    let mag := magInt m
+    let p := subpixelsPerPixel c.size m
+    let seconds ← fld req "cfg" >>= (getRat · "warmup")
+    let valid := validForData c m layers
+    let model := match krisskross z c m layers with
+      | some a => jArr3 a
+      | none => jObj [("raises", jStr "ValueError")]
+    let (l0, l1) := match layers[0]?, layers[1]? with
+      | some d0, some d1 => (d0.rows, d1.rows)
+      | _, _ => (0, 0)
+    -- the specification is evaluated for the configuration as the implementation reports it
+    -- (public getters: warm-up, offsets, sub-pixels per pixel); `null` = use the model's own values
+    let obs ← fld req "observed"
+    let (wi, soffs, sp) ← (match obs with
+      | .null => (pure (c.warmup, c.offs, p) : R (Int × List Nat × Nat))
+      | o => do pure (← getInt o "w", ← getList asNat o "offs", ← getNat o "p"))
+    let w := wi.toNat
+    let rr := reconRows l0 mag sp soffs
+    let rc := reconCols l1 mag sp soffs
+    let n := layers.length
+    let idx : List (Nat × Nat × Nat) :=
+      (List.range rr).flatMap (fun r => (List.range rc).flatMap (fun cc => (List.range n).map (fun i => (r, cc, i))))
+    let inrange := decide (0 ≤ wi) && !soffs.isEmpty && idx.all (fun (r, cc, i) => voxelInRange l0 l1 mag sp w soffs layers r cc i)
+    let specArr : Arr3 (List Int) :=
+      { rows := rr, cols := rc, depth := n, get := fun r cc i => voxel z l0 l1 mag sp w soffs layers r cc i }
+    let flatModel := (List.range nel).map (fun e =>
+      match getFlat c m (layers.map (project e)) with
+      | some a => jArr2 jRat a
+      | none => jObj [("raises", jStr "ValueError")])
+    let flatSpecs := (List.range nel).map (fun e =>
+      jArr2 jRat ({ rows := rr, cols := rc,
+                    get := fun r cc => flatSpec l0 l1 mag sp w soffs (layers.map (project e)) r cc } : Arr2 Rat))
+    let layerReads := (List.range n).map (fun i =>
+      match getLayer layers i with
+      | some a => jArr2 (jList jInt) a
+      | none => Json.null)
+    let layerSpecs := (List.range n).map (fun i =>
+      match layers[i]? with
+      | some l =>
+        if i % 2 = 0 then jArr2 (jList jInt) l
+        else jArr2 (jList jInt) ({ rows := l.cols, cols := l.rows, get := fun r cc => l.get cc r } : Arr2 (List Int))
+      | none => Json.null)
+    pure (jObj [
+      ("config", jCfg c), ("spp", jNat p), ("mag", jNat mag), ("mag_axis", jNat (magAxis m)),
+      ("warmup_margin", jRat (warmupTieMargin seconds c.scantime)),
+      ("valid", jOpt jBool valid),
+      ("model", model), ("spec", jArr3 specArr), ("spec_inrange", jBool inrange),
+      ("flat_model", Json.arr flatModel.toArray), ("flat_spec", Json.arr flatSpecs.toArray),
+      ("layer_model", Json.arr layerReads.toArray), ("layer_spec", Json.arr layerSpecs.toArray),
+      ("roundtrip_model", jCfg (SrrConfig.fromArray c.toArray)), ("roundtrip_spec", jCfg c)])
   | _ => throw s!"unknown op {op}"
 
 end PewDriver.C09
